@@ -499,7 +499,7 @@ func xmlinPackage(in *xmlinInput, main []byte, mainPresent bool, seed int64) []x
 			}
 			data = main
 		default:
-			data = fgnPartBytes(p, i)
+			data = fgnPartBytes(m, p, i)
 		}
 		if in.Pk.Part != "none" && xmlinPkName[in.Pk.Part] == p.N {
 			b, keep := xmlinBreak(in.Pk.Part, in.Pk.Brk, data, seed)
